@@ -41,6 +41,15 @@ CliChecks(e) ==
      \cup Flag(e.exit = 0 => e.named = x.named, "C12_sender_not_named_correctly")
      \* C10 at the tool: an I/O failure (output cannot be written, reader gone, input cannot be read) is never a success
      \cup Flag(c.cause \in (OutputCauses \cup InputCauses) => (e.exit = 1 /\ e.errline), "C10_io_failure_not_reported_as_an_error_by_the_tool")
+     \* C13 for key generation onto an existing file: whatever it holds, a run that fails leaves it as it was
+     \cup Flag((c.cmd = "key_generate" /\ c.prior = "present" /\ c.outp = "file" /\ e.exit # 0) => e.out = "untouched",
+               "C13_output_created_or_clobbered_by_failed_command")
+     \* C03 at the tool: a modified, truncated or extended file is never a success
+     \cup Flag((c.cmd \in {"decrypt", "pass_decrypt"} /\ c.cause \in (LateCauses(c.cmd) \cup {"bad_header", "corrupt_header", "truncated_header",
+                  "corrupt_first_chunk", "truncated_first_chunk", "other_mode_file"})) => e.exit # 0, "C03_tool_accepts_a_modified_or_truncated_file")
+     \* C10 at the tool: a sink that takes part of what it is offered (stdout and its line buffer) loses nothing
+     \cup Flag((c.cause = "none" /\ c.outp = "stdout" /\ c.cmd # "key_generate") => (e.exit = 0 /\ OutMatches(x.out, e.out)),
+               "C10_tool_loses_data_on_a_partial_write")
      \* C04 at the tool: decryption reports success only for a complete authentic message completely delivered
      \cup Flag((c.cmd \in {"decrypt", "pass_decrypt"} /\ c.cause # "none") => e.exit # 0, "C04_tool_reports_success_without_a_verified_and_delivered_final_chunk")
      \* C04 at the tool: whatever the output path held before, after a decryption it holds the authentic plaintext - all of
@@ -136,7 +145,19 @@ RtChecks(e) ==
 Checks(e) ==
   CASE e.ev = "cli"  -> CliChecks(e)
     [] e.ev = "rt"   -> RtChecks(e)
+    \* password mode with passwords that are not UTF-8: refused, or taken as given
+    [] e.ev = "rtf"  -> Flag(e.refused \/ e.own_ok, "C02_cli_round_trip_failed")
+                        \cup Flag(e.refused \/ e.other_rejected, "C02_file_opens_under_a_different_password")
     [] e.ev = "rss"  -> RssChecks(e)
+    \* an invocation with several operands: refused, or every output has randomness of its own (C07, C16)
+    [] e.ev = "multi" -> Flag(~e.accepted \/ e.distinct, IF e.prop = "C16" THEN "C16_salt_reused" ELSE "C07_value_drawn_twice")
+    \* C04 at a terminal: a later chunk is damaged; the right password is typed as often as the tool asks
+    [] e.ev = "ttyd" -> Flag(e.rc # 0, "C04_tool_reports_success_without_a_verified_and_delivered_final_chunk")
+                        \cup Flag(e.out_is_first_chunk, "C04_destination_is_not_exactly_the_authenticated_plaintext_prefix")
+    \* C15 at the tool for a password of e.len bytes: generated under it, opened by the specification under it, public key
+    \* extracted by the tool under it
+    [] e.ev = "pwlen" -> Flag(e.gen_exit = 0 /\ e.spec_ok /\ e.extract_exit = 0 /\ e.pub_ok,
+                              "C15_key_locked_under_a_password_of_this_length_does_not_unlock_at_the_tool")
     [] e.ev = "tty"  -> TtyChecks(e)
     [] e.ev = "argv" -> ArgvChecks(e)
     [] e.ev = "gen"  -> GenChecks(e)
